@@ -34,7 +34,9 @@ Diff(a, b) ==
   ELSE IF a.pend # b.pend THEN "pending-responses"
   ELSE IF \E i \in 1..3 : a.app[i] # b.app[i]
        THEN LET i == CHOOSE j \in 1..3 : a.app[j] # b.app[j] IN
-            IF "none" \in DOMAIN a.app[i] \/ "none" \in DOMAIN b.app[i] THEN "application-state-exists"
+            IF "broken" \in DOMAIN b.app[i] THEN "application-memory-missing"
+            ELSE IF "leftovers" \in DOMAIN b.app[i] THEN "state-of-stopped-application-survives"
+            ELSE IF "none" \in DOMAIN a.app[i] \/ "none" \in DOMAIN b.app[i] THEN "application-state-exists"
             ELSE IF a.app[i].um # b.app[i].um THEN "unit-module"
             ELSE IF a.app[i].regs # b.app[i].regs THEN "registers"
             ELSE IF a.app[i].arrs # b.app[i].arrs THEN "arrays"
